@@ -42,7 +42,10 @@ COMPONENTS = {
                  "death, late replies to the earlier generations released while the next generation's Asks are pending; asker death with pending "
                  "Asks racing completions: several goroutines Ask through one asker context while its only pending Ask completes by reply / Close, "
                  "then the asker is killed - every pending Ask must end promptly with actor-dead; Asks issued by the asker's own OnKill / OnKilled "
-                 "handler) - monitors only: every request and reply carries a unique id; each future completes with the reply produced for ITS "
+                 "handler; wait-in-kill: an Ask issued before the kill (timeout 1 h) is awaited with a harness-side bound by the asker's own OnKill "
+                 "handler / by a child's OnKill handler and must already be failed with actor-dead - monitor c04-pending-ask-not-failed-at-kill; "
+                 "this ties the POSITION of the first clean-up of the kill chain: in the model it is ord1 of [incarnation a pre ord1 mid ord2], "
+                 "before the handlers) - monitors only: every request and reply carries a unique id; each future completes with the reply produced for ITS "
                  "request or its own timeout / dead error, afterwards actorContexts / futureAgents hold no future entry (tables read through "
                  "reflection-based accessors; when they do not compile the command is built without them and the public-API monitors still run)"),
     },
